@@ -4,6 +4,7 @@ import dataclasses
 import datetime
 import enum
 import typing as t
+import uuid
 
 import typing_extensions as te
 
@@ -323,3 +324,20 @@ class WithCV:  # a ClassVar pseudo-field next to real fields
 class Kind(str, enum.Enum):  # str-mixin whose values are other members' names
     A = "B"
     B = "A"
+
+
+class InitOnly:
+    """A plain class whose only hints are the *string* annotations of its constructor."""
+
+    def __init__(self, id: "int", placed: "datetime.date", tags: "list[int]"):
+        self.id, self.placed, self.tags = id, placed, tags
+
+    def __eq__(self, other):
+        return type(other) is InitOnly and vars(other) == vars(self)
+
+    def __repr__(self):
+        return f"InitOnly({self.id!r}, {self.placed!r}, {self.tags!r})"
+
+
+class TaggedUUID(uuid.UUID):
+    pass
